@@ -7,13 +7,13 @@
      py  <tool l|m> <lt 0|1> <tree...>            -> events of CPython
      chk <tool> <fx> <lt> <tree...>               -> "<well_nested> <nests_as> <size> <starts> <ends> <clean> <started>"
    code-generation level (M_TraceGen):
-     program  :  P func* ;        func = F <kind f0|f1|g00|g10|g11> <tflag 0|1> block
+     program  :  P func* ;        func = F <kind f0|f1|f2|g00|g10|g11> (f2 = cpdef entered through its Python wrapper) <tflag 0|1> block
                  block = stmt* .   stmt = e | x | r | y | i block block | l block block | t block block | n block block
      oracles  :  O inst* ;        inst = I choice* .     choice = <kids>:<go 0|1>:<exc - | c | u>
      tree     :  N <f> <inst> <k> node* .
-     gw  <tool> <fx> <lt> <guard a|s> <program> <oracles> <tree>
+     gw  <tool> <fx> <lt> <guard a|s|w> <program> <oracles> <tree>
             -> "<prog_ok> <complete> <to_node ok> <well_nested> | events"
-     gfun <guard a|s> F <kind> <tflag> block   -> "<is_term> <clean> <func_ok fx=0> | epilogue tokens"
+     gfun <guard a|s|w> F <kind> <tflag> block   -> "<is_term> <clean> <func_ok fx=0> | epilogue tokens"
      gseg <fx> <guard> F ... I choice* . -> tokens of the whole run, segments separated by /
    events are printed as  <kind><f>  (line events  L<f>:<line>) separated by commas *)
 let skind_of = function
@@ -49,10 +49,10 @@ let show evs = if evs = [] then "-" else String.concat "," (List.map show_ev evs
 (* ---------- code-generation level ---------- *)
 let fuel = nat_of_int 200000
 let kind_of = function
-  | "f0" -> KFunc false | "f1" -> KFunc true
+  | "f0" -> KFunc (false, false) | "f1" -> KFunc (true, false) | "f2" -> KFunc (true, true)
   | "g00" -> KGen (false, false) | "g10" -> KGen (true, false) | "g11" -> KGen (true, true)
   | "g01" -> KGen (false, true) | _ -> failwith "kind"
-let guard_of = function "a" -> all_true | "s" -> g_not_inlined | _ -> failwith "guard"
+let guard_of = function "a" -> as_is | "s" -> g_not_inlined | "w" -> wrap_fixed | _ -> failwith "guard"
 
 let rec p_block toks = match toks with
   | "." :: rest -> (BNil, rest)
@@ -129,7 +129,7 @@ let handle_gen = function
       let fx = bool_of_string fx and g = guard_of g in
       let w = word g fx (tool_of t) (bool_of_string lt) prog x in
       Some (Printf.sprintf "%s %s %s %s | %s"
-        (string_of_bool (prog_ok fx prog)) (string_of_bool (complete g fx prog x))
+        (string_of_bool (prog_ok g fx prog)) (string_of_bool (complete g fx prog x))
         (string_of_bool (match to_node g fx prog x with Some _ -> true | None -> false))
         (string_of_bool (well_nested w)) (show w))
   | "gfun" :: g :: toks ->
@@ -137,7 +137,7 @@ let handle_gen = function
       if r <> [] then failwith "trailing" else
       Some (Printf.sprintf "%s %s %s | %s"
         (string_of_bool (is_term f.f_body)) (string_of_bool (clean_b O f.f_body))
-        (string_of_bool (func_ok false f))
+        (string_of_bool (func_ok (guard_of g) false f))
         (String.concat " " (List.map ename (epilogue (guard_of g) f.f_kind f.f_tflag))))
   | "gseg" :: fx :: g :: toks ->
       let (f, r1) = p_func toks in
